@@ -327,6 +327,9 @@ def _run(pid, P, tier, seed, scratch, t0):
 
     # ---- obligations of this property
     clauses = [c for c in meta['clauses'].values() if pid in c['tags']]
+    if pid == 'C17':
+        # "debug and release agree": every functional clause must be discharged under both settings
+        clauses = [c for c in meta['clauses'].values() if not c['id'].startswith('ASSUME.') and not c['id'].startswith('KANI.')]
     under = sorted(set(meta['notes']['under_contract']))
     ext_body = sorted(set(meta['notes']['external_body']))
     verified_fns = []
@@ -359,8 +362,14 @@ def _run(pid, P, tier, seed, scratch, t0):
 
     # ---- failures relevant to this property
     rel_fail = []
+    by_cfg = {}
+    for f in failures:
+        by_cfg.setdefault(f['id'], set()).add(f['cfg'])
     for f in failures:
         tags = tags_of_failure(f, meta, SAFETY_PROPS)
+        if pid == 'C17' and by_cfg[f['id']] != set(r['cfg'] for r in runs[:2]):
+            # discharged under one debug_assertions setting and not under the other: the two builds differ
+            tags = tags + ['C17']
         if pid in tags:
             rel_fail.append(f)
     if kani:
